@@ -53,7 +53,7 @@ def _apply(obj, op, grids, q):
         if op == "rfd":
             return "value", list(obj.recovery_factor(density=True).d)
         f = obj.recovery_factor_interpolator()
-        return "value", [f(q)]
+        return "value", [f(q)] + [f(t) for t in obj.time.d]       # at a symbolic time and at the simulated times
     except (RuntimeError, AttributeError, ValueError, KeyError, TypeError) as ex:
         return "exc", type(ex).__name__
 
@@ -97,6 +97,7 @@ def replay_history(model, cls="SinglePhaseReservoir", hist=()):
         o = mk()
         last = None
         since, repeats, st_first = {}, [], None
+        last_rec = None
         for n_, op in enumerate(ops):
             try:
                 if op == "simAs":
@@ -113,9 +114,15 @@ def replay_history(model, cls="SinglePhaseReservoir", hist=()):
                     f = o.recovery_factor_interpolator()
                     tq = float(model.get("q") or 0.5 * (o.time[0] + o.time[-1]))
                     tq = min(max(tq, o.time[0]), o.time[-1])
-                    last = ("value", [float(f(tq))])
+                    last = ("value", [float(f(tq))] + [float(f(t_)) for t_ in o.time])
+                    if last_rec is not None and (len(last_rec) != len(o.time) or any(abs(x - y) > 1e-9 * (1 + abs(y)) for x, y in zip(last[1][1:], last_rec))):
+                        stale.append(f"the interpolator gives {last[1][1:]} at the simulated times, the recovery most recently returned was {last_rec}")
             except (RuntimeError, AttributeError, ValueError, KeyError, TypeError) as ex:
                 last = ("exc", type(ex).__name__)
+            if op in SIMS:
+                last_rec = None
+            elif op in ("rf", "rfd") and last[0] == "value":
+                last_rec = last[1]
             if op in SIMS:
                 since = {}
             elif op in since:
@@ -131,15 +138,19 @@ def replay_history(model, cls="SinglePhaseReservoir", hist=()):
             st = list(map(float, o.time)) + np.asarray(o.pseudopressure, float).ravel().tolist()
         return last, (st_first if st_first is not None else st), repeats
     close = lambda x, y: abs(x - y) <= 1e-9 * (1 + abs(y))
+    stale = []
     (ka, va), sa, reps = run(hist)
+    stale_a = list(stale)
     (kb, vb), sb, _ = run(_fresh_history(hist), state_after_first=True)
     bad_rep = [f"{op} returned {r1} and then {r2}" for op, r1, r2 in reps
                if r1[0] != r2[0] or (r1[0] == "exc" and r1[1] != r2[1]) or (r1[0] == "value" and (len(r1[1]) != len(r2[1]) or not all(close(x, y) for x, y in zip(r1[1], r2[1]))))]
     bad = ka != kb or (ka == "exc" and va != vb) or len(sa) != len(sb) or \
         (ka == "value" and (len(va) != len(vb) or any(not close(x, y) for x, y in zip(va, vb)))) or \
-        any(not close(x, y) for x, y in zip(sa, sb)) or bool(bad_rep)
+        any(not close(x, y) for x, y in zip(sa, sb)) or bool(bad_rep) or bool(stale_a)
     what = f"{cls}: history {list(hist)} ends with {ka} {va} but a fresh object running {_fresh_history(hist)} gives {kb} {vb}"
-    if bad_rep:
+    if stale_a:
+        what = f"{cls}: history {list(hist)}: " + stale_a[0]
+    elif bad_rep:
         what = f"{cls}: history {list(hist)}: repeating a call changed its result: " + "; ".join(bad_rep[:2])
     elif bad and ka == kb and (ka != "value" or (len(va) == len(vb) and all(close(x, y) for x, y in zip(va, vb)))):
         what = f"{cls}: history {list(hist)}: the stored times / field differ from those the latest simulate alone produces (a recovery or interpolator call modified them)"
@@ -177,8 +188,16 @@ def job_histories(job, cls, L, chunk, nchunks):
             ra = None
             since = {}          # op -> first result since the latest simulate (for "repeating a call returns the same result")
             repeats = []
+            follow = []         # (interpolator values at the simulated times, the recovery array most recently returned)
+            last_rec = None
             for op in hist:
                 ra = _apply(a, op, grids, q)
+                if op in SIMS:
+                    last_rec = None
+                elif op in ("rf", "rfd") and ra[0] == "value":
+                    last_rec = ra[1]
+                elif op == "interp" and ra[0] == "value" and last_rec is not None:
+                    follow.append((ra[1][1:], last_rec))
                 if op in SIMS:
                     since = {}
                 elif op in since:
@@ -200,7 +219,7 @@ def job_histories(job, cls, L, chunk, nchunks):
                     # the stored times / field are those the latest simulate produced: recovery and interpolator calls made
                     # afterwards must leave them alone, so the reference state is taken right after the fresh simulate
                     sb = _state(b)
-            return ra, rb, _state(a), (sb if sb is not None else _state(b)), repeats
+            return ra, rb, _state(a), (sb if sb is not None else _state(b)), repeats, follow
 
         res = paths(job, run, [], max_paths=64)
         for k, pr in enumerate(res):
@@ -209,10 +228,20 @@ def job_histories(job, cls, L, chunk, nchunks):
                     continue
                 job.errors.append(f"{cls} history {hist} raised {pr.exc!r}")
                 continue
-            (ka, va), (kb, vb), sa, sb, repeats = pr.value
+            (ka, va), (kb, vb), sa, sb, repeats, follow = pr.value
             name = f"{cls}/{'>'.join(hist)}[path{k}]"
             rp = (replay_history, {"cls": cls, "hist": list(hist)})
             checked += 1
+            for n_, (at_times, rec) in enumerate(follow):
+                fname = f"{name}: interpolator call {n_ + 1} reproduces the recovery most recently returned at the simulated times"
+                if len(at_times) != len(rec):
+                    job.prove(fname + " (lengths differ)", pr.pc, bound=f"history length {len(hist)}", replay=rp, elim=True)
+                    continue
+                d = _differs(list(at_times), list(rec), pr.ctx.normal)
+                if d.kind == "const" and not d.args[0]:
+                    job.record(fname, "unsat", 0.0, note="syntactically identical")
+                else:
+                    job.prove(fname, pr.pc + [d], bound=f"history length {len(hist)}", replay=rp, elim=True)
             for op, (k1, v1), (k2, v2) in repeats:
                 rname = f"{name}: repeating {op} returns the same result"
                 if k1 != k2 or (k1 == "exc" and v1 != v2) or (k1 == "value" and len(v1) != len(v2)):
